@@ -19,6 +19,8 @@ type IntsBuilder struct {
 	FinalAppsMap syslutil.StrSet
 	Deps         syslutil.StrSet
 	DepsOut      []AppDependency
+	// walking holds the pass-through endpoints WalkPassthrough is currently expanding
+	walking map[AppElement]struct{}
 }
 
 func sortedSlice(endpts map[string]*sysl.Endpoint) []string {
@@ -138,6 +140,17 @@ func (b *IntsBuilder) MyCallers(sourceApp, epname string, t *sysl.Statement) {
 
 func (b *IntsBuilder) WalkPassthrough(appname, epname string) {
 	if b.Passthroughs.Contains(appname) {
+		// pass-through apps may call each other in a cycle: an endpoint that is already being
+		// expanded further up the call chain is not entered again
+		key := AppElement{Name: appname, Endpoint: epname}
+		if _, active := b.walking[key]; active {
+			return
+		}
+		if b.walking == nil {
+			b.walking = map[AppElement]struct{}{}
+		}
+		b.walking[key] = struct{}{}
+		defer delete(b.walking, key)
 		endpt := b.M.GetApps()[appname].GetEndpoints()[epname]
 		ProcessCalls(appname, epname, endpt.GetStmt(), b.ProcessExcludeAndPassthrough)
 	}
